@@ -5,9 +5,6 @@ import os
 VERIF = os.path.dirname(os.path.dirname(os.path.abspath(__file__)))
 ALL = [f"C{i:02d}" for i in range(1, 21)]
 
-INTERIM = ("INTERIM: the unbounded refinement/ordering/conservation theorems are being completed; until they are integrated the property "
-           "rests on the theorems listed plus correspondence and the replay of the implementation's own output against the property text. ")
-
 CLAIMS = {
     "C01": {
         "text": "Faithful Coq model of the matcher (heap with duplicate entries, partial-amount cache, from/to index, lot in flight) vs greedy best-ranked-lot specification; "
@@ -32,25 +29,21 @@ CLAIMS = {
         "note": "CPython's decimal is modelled by Base/Dec.v (validated by correspondence); 'no float' is the translator-checked FloatOperation trap + exact 31-digit agreement.",
         "technique": "Coq proof (decimal arithmetic model) + exact differential correspondence", "design_ref": "6 C04"},
     "C06": {
-        "text": "Model of _create_yearly_gain_loss_list (grouping by (local year, type, long/short), running decimal sums, to-date cut, year filter, sort) with theorems that every line is the left-to-right sum over exactly "
-                "the fractions of its key and lines exist only for keys with fractions; yearly list of every windowed run compared with sums over the detail fractions and with the model.",
-        "note": INTERIM + "to-date cut needs monotone local dates (finding F9).",
-        "technique": "Coq proof + differential correspondence + summation oracle", "design_ref": "6 C06"},
+        "text": "Coq theorems on the model of _create_yearly_gain_loss_list/_filter_yearly_gain_loss_by_year (yearly_list, and compute's cd_yearly): every line is the exact integer sum (crypto) and the left-to-right 31-digit sums (proceeds, cost, gain) over exactly the fractions with its (event local year, type, long/short) key up to the to-date cut; every such fraction is in exactly one line, no line without fraction, keys distinct, documented order, from-year only hides lines, crypto grand total exact, fiat figures and grand totals within an explicit 5e-31-relative rounding bound of exact rational sums; refutation witness for non-monotone local dates; every windowed run compared with sums over the detail fractions and with the extracted model.",
+        "note": "'Every fraction dated up to the to-date contributes' is proved under day-sortedness of the detail table (local dates monotone in time); refuted otherwise (C06_to_date_refuted, finding F9, KNOWN_FINDINGS.txt). The fiat bound is stated in terms of the computed partial sums.",
+        "technique": 'Coq proof (induction over the fraction list) + differential correspondence + summation oracle', "design_ref": "6 C06"},
     "C07": {
-        "text": "Model of BalanceSet (time-sorted replay of in + intra + out, four dictionaries, to-date cut, sort by account name) with theorems that per account acquired/sent/received are the sums of its flows, "
-                "final = acquired + received - sent, every touched account appears once, total = everything acquired minus everything that left; runs compared with flows recomputed from raw rows, with lot remainders and with the model.",
-        "note": INTERIM + "reconciliation with lots assumes no dust transfer fee (F8) and consistent optional crypto_out_with_fee; to-date cut needs monotone dates (F9).",
-        "technique": "Coq proof + differential correspondence + flow oracle", "design_ref": "6 C07"},
+        "text": 'Coq theorems on the model of BalanceSet: per (exchange, holder) account acquired/sent/received/final are the sums of its flows over the replayed transactions (per input table under monotone dates), final = acquired + received - sent, every touched account exactly once, per-holder totals = holder net flows and add up; reconciliation proved: sum of final balances = amount left unconsumed in lots by the matcher (sum of crypto_in minus fractions taken), also end to end from raw rows through constructors, taxable events, matcher (pipeline_wf); refutation witnesses for dust fee (F8) and inconsistent crypto_out_with_fee; runs compared with flows from raw rows, lot remainders and the extracted model.',
+        "note": 'Reconciliation hypotheses (all visible in the statement): matcher input well-formed and run Ok, no to-date cut, supplied crypto_out_with_fee = amount + fee, no dust transfer fee (F8); holder indices < 100000 (model encoding). Table-by-table date filter needs monotone dates (F9).',
+        "technique": 'Coq proof (invariant over the replay + conservation of the matcher) + differential correspondence + flow oracle', "design_ref": "6 C07"},
     "C08": {
-        "text": "Theorems on the balance replay: rejection without -n happens exactly at the first debit that leaves the debited account below -5e-11 (quantised test), never with -n; hence > 1e-10 below zero is always rejected and "
-                "never-negative histories never are; runs with and without -n on overdraft-injected histories compared with an independent replay and with the model (accept / reject + account named).",
-        "note": INTERIM + "balances between -1e-10 and 0 are unconstrained by the property.",
-        "technique": "Coq proof + differential correspondence + replay oracle", "design_ref": "6 C08"},
+        "text": "Coq theorems on balances/compute: without -n the run fails (ENegBalance only) iff after some debit the debited account's running balance is below -5e-11 (quantize(1e-10) test, proved numerically), at the first such debit, and the reported account is the debited one; any account more than 1e-10 below zero at any moment => rejected; never negative (or within 5e-11) => accepted; with -n always Ok and final balances are the net flows; -n changes nothing else in compute; overdraft-injected runs with/without -n compared with an independent replay and the model.",
+        "note": "'Any moment' form assumes non-negative credits (a negative STAKING income is rejected by the matcher, not by this guard); balances between -1e-10 and -5e-11 are rejected by the code, which the property leaves open.",
+        "technique": 'Coq proof (prefix characterisation of the replay) + differential correspondence + replay oracle', "design_ref": "6 C08"},
     "C10": {
-        "text": "Theorems: the window iterators are filters (from <= day <= to) on date-sorted lists, figures of a fraction are functions of (event, lot, amount) only and the matcher never sees the window; "
-                "each history is run unfiltered and windowed and the windowed ComputedData must equal the unfiltered one restricted to the window (figures, running sums, labels, balances up to the to-date), and the model.",
-        "note": INTERIM + "claimed for histories whose local dates are monotone in time (finding F9).",
-        "technique": "Coq proof + metamorphic differential correspondence", "design_ref": "6 C10"},
+        "text": "Coq theorems on compute under two windows: views are always inside the window and initial segments of the rows dated in it, and equal the date filter when lists are time-sorted and local dates monotone; detail table, all running sums and every per-fraction figure identical under any window (the matcher output is an argument of compute; compute_tax passes the same fractions); balances, average price and fraction labels are functions of the to-date only; yearly lines = whole years from the from-date's year; F9 refutation witness; metamorphic windowed-vs-unfiltered runs incl. average-price and whole-year summary oracles, and the extracted model.",
+        "note": "'Exactly the rows in the window' needs dates monotone in time (F9; true for a single UTC offset, proved). Label values themselves (k of n) are corresponded and oracle-checked, not specified in Coq.",
+        "technique": 'Coq proof + metamorphic differential correspondence', "design_ref": "6 C10"},
     "C09": {
         "text": "Coq theorem spec_prefix_stable: the matching of events <= T is a prefix of the matching of any extension dated after T (unbounded, any continuation); metamorphic runs of the implementation "
                 "(prefix vs full history; -t D vs truncated history) compared with each other and with the model.",
